@@ -174,10 +174,9 @@ Proof.
   field. intro H0. apply Hd. rewrite <- H0. ring.
 Qed.
 
-(* norm factors and gas velocities: the numba wrapper (pressures -> compressibility at the direction-corrected inlet temperature tf -> get_gas_vel_numba) equals the numpy function when the branch is not direction-switched *)
-Lemma twin_gas_normfactors_partial :
+(* norm factors and gas velocities: the numba wrapper (pressures -> compressibility at the direction-corrected inlet temperature tf -> get_gas_vel_numba) equals the numpy function, direction-switched branches included (since /repo bfae2a5 the wrapper passes tf to get_gas_vel_numba) *)
+Lemma twin_gas_normfactors_equal :
   forall (bp_FROM_NODE_T_SWITCHED bp_TOUTINIT : R) (fl_compressibility : R -> R -> R) (np_from_PAMB np_from_TINIT np_to_PAMB np_to_TINIT p_from p_to v_mps : R),
-  bp_FROM_NODE_T_SWITCHED = 0 ->
   (np_from_PAMB + p_from) + (np_to_PAMB + p_to) <> 0 ->
   let tf := (if negb (Reqb bp_FROM_NODE_T_SWITCHED 0) then np_to_TINIT else np_from_TINIT) in
   gasres_np_normfactor_from bp_FROM_NODE_T_SWITCHED bp_TOUTINIT fl_compressibility np_from_PAMB np_from_TINIT np_to_PAMB np_to_TINIT p_from p_to v_mps =
@@ -185,61 +184,46 @@ Lemma twin_gas_normfactors_partial :
       (fl_compressibility (gaspress_nb_p_abs_from np_from_PAMB np_to_PAMB p_from p_to) tf)
       (fl_compressibility (gaspress_nb_p_abs_mean np_from_PAMB np_to_PAMB p_from p_to) ((tf + bp_TOUTINIT) / 2))
       (fl_compressibility (gaspress_nb_p_abs_to np_from_PAMB np_to_PAMB p_from p_to) bp_TOUTINIT)
-      np_from_TINIT (gaspress_nb_p_abs_from np_from_PAMB np_to_PAMB p_from p_to) (gaspress_nb_p_abs_mean np_from_PAMB np_to_PAMB p_from p_to) (gaspress_nb_p_abs_to np_from_PAMB np_to_PAMB p_from p_to) v_mps /\
+      (gaspress_nb_p_abs_from np_from_PAMB np_to_PAMB p_from p_to) (gaspress_nb_p_abs_mean np_from_PAMB np_to_PAMB p_from p_to) (gaspress_nb_p_abs_to np_from_PAMB np_to_PAMB p_from p_to) tf v_mps /\
   gasres_np_normfactor_to bp_FROM_NODE_T_SWITCHED bp_TOUTINIT fl_compressibility np_from_PAMB np_from_TINIT np_to_PAMB np_to_TINIT p_from p_to v_mps =
     gasvel_nb_normfactor_to bp_TOUTINIT
       (fl_compressibility (gaspress_nb_p_abs_from np_from_PAMB np_to_PAMB p_from p_to) tf)
       (fl_compressibility (gaspress_nb_p_abs_mean np_from_PAMB np_to_PAMB p_from p_to) ((tf + bp_TOUTINIT) / 2))
       (fl_compressibility (gaspress_nb_p_abs_to np_from_PAMB np_to_PAMB p_from p_to) bp_TOUTINIT)
-      np_from_TINIT (gaspress_nb_p_abs_from np_from_PAMB np_to_PAMB p_from p_to) (gaspress_nb_p_abs_mean np_from_PAMB np_to_PAMB p_from p_to) (gaspress_nb_p_abs_to np_from_PAMB np_to_PAMB p_from p_to) v_mps /\
+      (gaspress_nb_p_abs_from np_from_PAMB np_to_PAMB p_from p_to) (gaspress_nb_p_abs_mean np_from_PAMB np_to_PAMB p_from p_to) (gaspress_nb_p_abs_to np_from_PAMB np_to_PAMB p_from p_to) tf v_mps /\
   gasres_np_normfactor_mean bp_FROM_NODE_T_SWITCHED bp_TOUTINIT fl_compressibility np_from_PAMB np_from_TINIT np_to_PAMB np_to_TINIT p_from p_to v_mps =
     gasvel_nb_normfactor_mean bp_TOUTINIT
       (fl_compressibility (gaspress_nb_p_abs_from np_from_PAMB np_to_PAMB p_from p_to) tf)
       (fl_compressibility (gaspress_nb_p_abs_mean np_from_PAMB np_to_PAMB p_from p_to) ((tf + bp_TOUTINIT) / 2))
       (fl_compressibility (gaspress_nb_p_abs_to np_from_PAMB np_to_PAMB p_from p_to) bp_TOUTINIT)
-      np_from_TINIT (gaspress_nb_p_abs_from np_from_PAMB np_to_PAMB p_from p_to) (gaspress_nb_p_abs_mean np_from_PAMB np_to_PAMB p_from p_to) (gaspress_nb_p_abs_to np_from_PAMB np_to_PAMB p_from p_to) v_mps /\
+      (gaspress_nb_p_abs_from np_from_PAMB np_to_PAMB p_from p_to) (gaspress_nb_p_abs_mean np_from_PAMB np_to_PAMB p_from p_to) (gaspress_nb_p_abs_to np_from_PAMB np_to_PAMB p_from p_to) tf v_mps /\
   gasres_np_v_gas_from bp_FROM_NODE_T_SWITCHED bp_TOUTINIT fl_compressibility np_from_PAMB np_from_TINIT np_to_PAMB np_to_TINIT p_from p_to v_mps =
     gasvel_nb_v_gas_from bp_TOUTINIT
       (fl_compressibility (gaspress_nb_p_abs_from np_from_PAMB np_to_PAMB p_from p_to) tf)
       (fl_compressibility (gaspress_nb_p_abs_mean np_from_PAMB np_to_PAMB p_from p_to) ((tf + bp_TOUTINIT) / 2))
       (fl_compressibility (gaspress_nb_p_abs_to np_from_PAMB np_to_PAMB p_from p_to) bp_TOUTINIT)
-      np_from_TINIT (gaspress_nb_p_abs_from np_from_PAMB np_to_PAMB p_from p_to) (gaspress_nb_p_abs_mean np_from_PAMB np_to_PAMB p_from p_to) (gaspress_nb_p_abs_to np_from_PAMB np_to_PAMB p_from p_to) v_mps /\
+      (gaspress_nb_p_abs_from np_from_PAMB np_to_PAMB p_from p_to) (gaspress_nb_p_abs_mean np_from_PAMB np_to_PAMB p_from p_to) (gaspress_nb_p_abs_to np_from_PAMB np_to_PAMB p_from p_to) tf v_mps /\
   gasres_np_v_gas_to bp_FROM_NODE_T_SWITCHED bp_TOUTINIT fl_compressibility np_from_PAMB np_from_TINIT np_to_PAMB np_to_TINIT p_from p_to v_mps =
     gasvel_nb_v_gas_to bp_TOUTINIT
       (fl_compressibility (gaspress_nb_p_abs_from np_from_PAMB np_to_PAMB p_from p_to) tf)
       (fl_compressibility (gaspress_nb_p_abs_mean np_from_PAMB np_to_PAMB p_from p_to) ((tf + bp_TOUTINIT) / 2))
       (fl_compressibility (gaspress_nb_p_abs_to np_from_PAMB np_to_PAMB p_from p_to) bp_TOUTINIT)
-      np_from_TINIT (gaspress_nb_p_abs_from np_from_PAMB np_to_PAMB p_from p_to) (gaspress_nb_p_abs_mean np_from_PAMB np_to_PAMB p_from p_to) (gaspress_nb_p_abs_to np_from_PAMB np_to_PAMB p_from p_to) v_mps /\
+      (gaspress_nb_p_abs_from np_from_PAMB np_to_PAMB p_from p_to) (gaspress_nb_p_abs_mean np_from_PAMB np_to_PAMB p_from p_to) (gaspress_nb_p_abs_to np_from_PAMB np_to_PAMB p_from p_to) tf v_mps /\
   gasres_np_v_gas_mean bp_FROM_NODE_T_SWITCHED bp_TOUTINIT fl_compressibility np_from_PAMB np_from_TINIT np_to_PAMB np_to_TINIT p_from p_to v_mps =
     gasvel_nb_v_gas_mean bp_TOUTINIT
       (fl_compressibility (gaspress_nb_p_abs_from np_from_PAMB np_to_PAMB p_from p_to) tf)
       (fl_compressibility (gaspress_nb_p_abs_mean np_from_PAMB np_to_PAMB p_from p_to) ((tf + bp_TOUTINIT) / 2))
       (fl_compressibility (gaspress_nb_p_abs_to np_from_PAMB np_to_PAMB p_from p_to) bp_TOUTINIT)
-      np_from_TINIT (gaspress_nb_p_abs_from np_from_PAMB np_to_PAMB p_from p_to) (gaspress_nb_p_abs_mean np_from_PAMB np_to_PAMB p_from p_to) (gaspress_nb_p_abs_to np_from_PAMB np_to_PAMB p_from p_to) v_mps.
+      (gaspress_nb_p_abs_from np_from_PAMB np_to_PAMB p_from p_to) (gaspress_nb_p_abs_mean np_from_PAMB np_to_PAMB p_from p_to) (gaspress_nb_p_abs_to np_from_PAMB np_to_PAMB p_from p_to) tf v_mps.
 Proof.
-  intros until v_mps. intros Hsw Hs tf.
+  intros until v_mps. intros Hs tf.
   pose proof (twin_gas_pressures_equal bp_FROM_NODE_T_SWITCHED bp_TOUTINIT fl_compressibility
                 np_from_PAMB np_from_TINIT np_to_PAMB np_to_TINIT p_from p_to v_mps) as [Hf [Ht Hm]].
-  specialize (Hm Hs). rewrite <- Hf, <- Ht, <- Hm.
-  subst tf. subst bp_FROM_NODE_T_SWITCHED. rewrite Reqb_refl. simpl negb. cbv iota.
-  unfold gasres_np_normfactor_from, gasvel_nb_normfactor_from, gasres_np_normfactor_to, gasvel_nb_normfactor_to, gasres_np_normfactor_mean, gasvel_nb_normfactor_mean, gasres_np_v_gas_from, gasvel_nb_v_gas_from, gasres_np_v_gas_to, gasvel_nb_v_gas_to, gasres_np_v_gas_mean, gasvel_nb_v_gas_mean,
+  specialize (Hm Hs). rewrite <- Hf, <- Ht, <- Hm. subst tf.
+  unfold gasres_np_normfactor_from, gasvel_nb_normfactor_from, gasres_np_normfactor_to, gasvel_nb_normfactor_to,
+    gasres_np_normfactor_mean, gasvel_nb_normfactor_mean, gasres_np_v_gas_from, gasvel_nb_v_gas_from,
+    gasres_np_v_gas_to, gasvel_nb_v_gas_to, gasres_np_v_gas_mean, gasvel_nb_v_gas_mean,
     gasres_np_p_abs_from, gasres_np_p_abs_to, gasres_np_p_abs_mean. cbv zeta.
-  rewrite Reqb_refl. simpl negb. cbv iota. repeat split; reflexivity.
-Qed.
-
-(* for a direction-switched branch (reverse flow in a thermal run) normfactor_from differs: numpy scales with the switched inlet temperature, get_gas_vel_numba with the unswitched from-node temperature (witness: T_from-node = 1, T_to-node = 2, K = 1, p = 1) *)
-Lemma twin_gas_normfactor_from_refuted :
-  exists (bp_FROM_NODE_T_SWITCHED bp_TOUTINIT : R) (fl_compressibility : R -> R -> R) (np_from_PAMB np_from_TINIT np_to_PAMB np_to_TINIT p_from p_to v_mps : R),
-  let tf := (if negb (Reqb bp_FROM_NODE_T_SWITCHED 0) then np_to_TINIT else np_from_TINIT) in
-  gasres_np_normfactor_from bp_FROM_NODE_T_SWITCHED bp_TOUTINIT fl_compressibility np_from_PAMB np_from_TINIT np_to_PAMB np_to_TINIT p_from p_to v_mps <>
-    gasvel_nb_normfactor_from bp_TOUTINIT
-      (fl_compressibility (gaspress_nb_p_abs_from np_from_PAMB np_to_PAMB p_from p_to) tf)
-      (fl_compressibility (gaspress_nb_p_abs_mean np_from_PAMB np_to_PAMB p_from p_to) ((tf + bp_TOUTINIT) / 2))
-      (fl_compressibility (gaspress_nb_p_abs_to np_from_PAMB np_to_PAMB p_from p_to) bp_TOUTINIT)
-      np_from_TINIT (gaspress_nb_p_abs_from np_from_PAMB np_to_PAMB p_from p_to) (gaspress_nb_p_abs_mean np_from_PAMB np_to_PAMB p_from p_to) (gaspress_nb_p_abs_to np_from_PAMB np_to_PAMB p_from p_to) v_mps.
-Proof.
-  exists 1, 1, (fun _ _ => 1), 0, 1, 0, 2, 1, 1, 1. intro tf. subst tf.
-  unfold gasres_np_normfactor_from, gasvel_nb_normfactor_from, gaspress_nb_p_abs_from. cbv zeta.
-  destruct (Reqb_spec 1 0) as [H | H]; [lra |]. simpl negb. cbv iota. lra.
+  repeat split; destruct (negb (Reqb bp_FROM_NODE_T_SWITCHED 0)); first [reflexivity | unfold Rdiv; ring].
 Qed.
 
